@@ -228,6 +228,11 @@ func (f *Font) Write(w io.Writer) error {
 		offs = newOffs
 	}
 
+	if int(nStdString)+len(strings.data) > 65000 {
+		// string identifiers are 2-byte numbers in the range 0 to 64999
+		return invalidSince("too many strings")
+	}
+
 	for i := 0; i < numSections; i++ {
 		_, err = w.Write(blobs[i])
 		if err != nil {
